@@ -253,6 +253,39 @@ def check_cli(res, f, cfg, tmpdir):
                       f'{len(want_lines)} matching lines of the unfiltered listing', case)
 
 
+def check_cli_logs(res, f, rng, tmpdir):
+    """The command-line log listing: one line per log record that satisfies the filters, nothing for events."""
+    from click.testing import CliRunner
+    from pykdebugparser.__main__ import cli
+    inv = f['strings']
+    tid = rng.choice((None, None, 0, 1, 77))
+    proc = rng.choice((None, None, 'launchd', '123', 'nosuch'))
+    path = os.path.join(tmpdir, 'dump.bin')
+    with open(path, 'wb') as fd:
+        fd.write(f['data'])
+    args = ['logs', path] + (['--tid', str(tid)] if tid is not None else []) + (['--process', proc] if proc is not None else [])
+    r = CliRunner().invoke(cli, args)
+    os.unlink(path)
+    case = {'file': f['data'], 'args': args[2:]}
+    if r.exception is not None and not isinstance(r.exception, SystemExit):
+        res.violation(f'c12-cli-logs-raise-{core.exc_name(r.exception)}', f'logs {args[2:]} on a {f["kind"]} dump: '
+                      f'{r.exception!r}', case)
+        return
+    want = []
+    for raw in f['logs']:
+        name = inv[raw['p']] if 'p' in raw else ''
+        if tid is not None and raw['tid'] != tid:
+            continue
+        if proc is not None and proc != name and proc != str(raw.get('pid', 0)):
+            continue
+        want.append(inv[raw['cm']])
+    lines = r.stdout.splitlines()
+    res.count('cli_log_listings')
+    if len(lines) != len(want) or any(not l.endswith(w) for l, w in zip(lines, want)):
+        res.violation('c12-cli-log-filter', f'CLI logs {args[2:]} on a {f["kind"]} dump printed {len(lines)} lines, the dump '
+                      f'holds {len(want)} matching log records (of {len(f["logs"])}) and {len(f["records"])} events', case)
+
+
 def run(ctx):
     res = core.Result()
     rng = ctx.rng
@@ -268,8 +301,9 @@ def run(ctx):
                 check_events(res, f, cfg)
                 if i % 4 == 0 and rng.random() < 0.4:
                     check_cli(res, f, cfg, tmpdir)
-            if f['kind'] == 'v3':
-                check_logs(res, f, rng)
+            check_logs(res, f, rng)        # a version-2 dump holds no log records: its log listing is empty
+            if i % 8 == 0:
+                check_cli_logs(res, f, rng, tmpdir)
             recent.append(f)
             if len(recent) >= 2:
                 check_history(res, rng, recent[-3:])
@@ -300,6 +334,7 @@ def run(ctx):
     res.require('cli_configurations', 3)
     res.require('history_requests', 20)
     res.require('large_listings', 2)
+    res.require('cli_log_listings', 3)
     return res
 
 
